@@ -1,5 +1,6 @@
 """C15 — type and scheme encodings round-trip; over-deep or duplicate input is refused."""
 from lib import *
+import sem
 import C14
 
 LEVEL = "other"
@@ -41,16 +42,37 @@ def _push_features(h):
     return f
 
 
+_CRATES = []
+
+
+def E_of(h):
+    for c in _CRATES:
+        if c.hir_by_dp.get(h["dp"]) is h:
+            return c
+    return None
+
+
 def _pop_features(h):
     f = {}
     body = h["body"]
-    top = tail(body)
-    if top.get("k") == "If":
-        c = strip(top["cond"])
-        if c.get("k") == "Binary":
-            f["guard"] = (c["op"], strip(c["l"]).get("name"), lit_value(c["r"]))
-        el = tail(top.get("else", {}))
-        f["empty"] = [def_path(x) for x in el.get("es", [])][-1:] if el.get("k") == "Tup" else None
+    # what is returned for an empty / non-empty stack, read from the path conditions of the result leaves
+    S = sem.Sem(E_of(h), h, inline=False) if E_of(h) is not None else None
+    if S is not None:
+        for x in S.result_leaves():
+            t = strip(x.node)
+            last = strip(t["es"][-1]) if t.get("k") == "Tup" and t.get("es") else t
+            for op, l, r, fr, certain in sem.weak_cmps(x.pc):
+                if not certain:
+                    continue
+                for a_, b_, o in ((l, r, op), (r, l, {"Lt": "Gt", "Le": "Ge"}.get(op, op))):
+                    an = strip(S.resolve(a_, fr).node)
+                    if an.get("k") == "Field" and an.get("name") == "len" and lit_value(b_) is not None:
+                        nonempty = (o, lit_value(b_)) in (("Gt", 0), ("Ne", 0), ("Ge", 1))
+                        empty = (o, lit_value(b_)) in (("Le", 0), ("Eq", 0), ("Lt", 1))
+                        if empty:
+                            f["empty"] = [def_path(last)]
+                        elif nonempty:
+                            f["guard"] = ("Gt", "len", 0)
     for st in exprs(body, "SLet"):
         init = strip(st.get("init", {}))
         if init.get("k") == "Binary" and init["op"] == "Eq":
@@ -91,6 +113,7 @@ WANT_POP = {"guard": ("Gt", "len", 0), "empty": ["core::option::Option::None"], 
 
 def rule_pack(F, R):
     rule = "R15-pack"
+    _CRATES[:] = [F.engine, F.ffi, F.wasm]
     got = {}
     for C, pre in ((F.engine, "types::CompoundType"), (F.ffi, "CType")):
         for name, fe in (("push", _push_features), ("pop", _pop_features)):
@@ -110,12 +133,24 @@ def rule_pack(F, R):
     # engine bounds len < 32 before pushing
     h = F.engine.hir("types::CompoundType::push")
     if h:
-        t = tail(h["body"])
-        ok = False
-        if t.get("k") == "If":
-            c = strip(t["cond"])
-            ok = c.get("k") == "Binary" and c["op"] == "Ge" and strip(c["l"]).get("name") == "len" and lit_value(c["r"]) == 32 \
-                and def_path(tail(t["then"])) == "core::option::Option::None"
+        S = sem.Sem(F.engine, h, inline=False)
+
+        def len_cmp(pc):
+            for op, l, r, fr, certain in sem.weak_cmps(pc):
+                if not certain:
+                    continue
+                ln, rn = strip(S.resolve(l, fr).node), strip(S.resolve(r, fr).node)
+                if ln.get("k") == "Field" and ln.get("name") == "len" and lit_value(r) is not None:
+                    return (op, "len", lit_value(r))
+                if rn.get("k") == "Field" and rn.get("name") == "len" and lit_value(l) is not None:
+                    return (op, lit_value(l), "len")
+            return None
+        leaves = S.result_leaves()
+        nones = [x for x in leaves if def_path(x.node) == "core::option::Option::None"]
+        somes = [x for x in leaves if norm(x.node.get("callee", "")) == "core::option::Option::Some"]
+        writes = [x for x in S.sites() if x.node.get("k") in ("Assign", "AssignOp") and strip(x.node["l"]).get("k") == "Field"]
+        ok = bool(nones) and bool(somes) and all(len_cmp(x.pc) in (("Le", 32, "len"), ("Lt", 31, "len")) for x in nones) and \
+            all(len_cmp(x.pc) in (("Lt", "len", 32), ("Le", "len", 31)) for x in somes + writes)
         R.check(ok, rule, "types::CompoundType::push", "a 33rd layer is refused (None), never wrapped", where=h["span"])
     R.note("CType::push has no 32-layer bound (C side): outside `every type all three can represent`")
 
